@@ -224,9 +224,16 @@ func (x *ctx) examine(what string, err error) {
 			_ = de.IncorrectUserType()
 		}
 		k := kit.ConvertError(fs.NewFile("root", x.sources["root"]), err)
-		if de0, ok := err.(liberrors.DocumentError); ok && k != nil {
+		type ownFile interface {
+			Filename() string
+			Position() uint
+			ErrCode() int
+			IncorrectUserType() string
+		}
+		if de0, ok := err.(ownFile); ok && k != nil {
 			// an error that already knows its file keeps it through the conversion (the error may
-			// stem from an added type's text, not from the file the caller passes)
+			// stem from an added type's text, not from the file the caller passes): whatever its Go
+			// type is, a position only means something together with the file it was counted in
 			if k.Filename() != de0.Filename() || k.Position() != de0.Position() || k.ErrCode() != de0.ErrCode() || k.IncorrectUserType() != de0.IncorrectUserType() {
 				x.bad("%s: kit.ConvertError changed the error: file %q position %d code %d type %q became file %q position %d code %d type %q", what,
 					de0.Filename(), de0.Position(), de0.ErrCode(), de0.IncorrectUserType(), k.Filename(), k.Position(), k.ErrCode(), k.IncorrectUserType())
